@@ -232,7 +232,7 @@ pub fn run(ctx: &Ctx) -> i32 {
     }
     acc.finish(
         "exploration",
-        "generated base documents over the OpenAPI object model (info with contact/license, servers with variables, security, tags, externalDocs, components.{securitySchemes, parameters, responses, headers, examples, requestBodies, links}, pre-existing paths and schemas incl. names equal to the program's, x- extensions) x G-wt programs; output of Builder::with_base (and of the real oal-cli -b for a slice) compared field-wise with the base as the tool's model represents it, with the raw base when the model round-trips it verbatim, and with the base-less output for paths and schemas; non-trivial = base has components, paths or schemas; distinct by (sources, base)",
+        "generated base documents over the OpenAPI object model (info with contact/license, servers with variables, security, tags, externalDocs, components.{securitySchemes, parameters, responses, headers, examples, requestBodies, links}, pre-existing paths and schemas incl. names equal to the program's, x- extensions) x G-wt programs; output of Builder::with_base (and of the real oal-cli -b for a slice) compared field-wise with the base as the tool's model represents it, with the raw base when the model round-trips it verbatim, and with the base-less output for paths and schemas; the CLI slice first generates the target from a richer base, then from the base under test (a target is normally regenerated); bases carry x- keys directly under paths; non-trivial = base has components, paths or schemas; distinct by (sources, base)",
         if ctx.quick() { 500 } else { 5000 },
         false,
         &["bases are closed w.r.t. what survives the merge (nothing outside paths/schemas refers to a schema component)"],
